@@ -602,3 +602,15 @@ for _p, _only in (('C09', [r'CacheD::new$', r'CacheD::ttl_ticker$']), ('C10', [r
     PROPS[_p]['verus_only']['config'] = PROPS[_p]['verus_only'].get('config', []) + _only
 PROPS['C01']['verus_only']['weights'] = PROPS['C01']['verus_only']['weights'] + [r'CacheWeight::new$', r'CacheWeightConfig::']
 PROPS['C09']['verus_only']['store'] = PROPS['C09']['verus_only']['store'] + [r'Store::new$']
+
+# AdmissionPolicy: delete (no hook) and the constructors' wiring
+for _p, _only in (('C04', [r'AdmissionPolicy::delete$']), ('C05', [r'AdmissionPolicy::delete$']), ('C01', [r'AdmissionPolicy::new$', r'AdmissionPolicy::with_channel_capacity$']),
+                  ('C14', [r'AdmissionPolicy::new$', r'AdmissionPolicy::with_channel_capacity$']), ('C15', [r'AdmissionPolicy::with_channel_capacity$'])):
+    if 'policy' not in PROPS[_p].get('verus', []):
+        PROPS[_p]['verus'] = PROPS[_p].get('verus', []) + ['policy']
+    PROPS[_p].setdefault('verus_only', {})
+    if PROPS[_p]['verus_only'].get('policy') is None and 'policy' in PROPS[_p].get('verus', []) and _p in ('C04', 'C14'):
+        PROPS[_p]['verus_only']['policy'] = []
+    if 'policy' in PROPS[_p]['verus_only']:
+        PROPS[_p]['verus_only']['policy'] = PROPS[_p]['verus_only']['policy'] + _only
+PROPS['C15']['verus_only']['pool'] = PROPS['C15']['verus_only']['pool'] + [r'Buffer::new$']
